@@ -8,3 +8,8 @@ verif_struct!(PublicKey, "crate::key::verif_v::mk_public_key", mk_public_key, { 
 verif_struct!(KSwitchKeys, "crate::key::verif_v::mk_kswitch_keys", mk_kswitch_keys, { parms_id: ParmsID, keys: Vec<Vec<PublicKey>> });
 verif_struct!(RelinKeys, "crate::key::verif_v::mk_relin_keys", mk_relin_keys, { keys: KSwitchKeys });
 verif_struct!(GaloisKeys, "crate::key::verif_v::mk_galois_keys", mk_galois_keys, { keys: KSwitchKeys });
+
+pub(crate) fn mk_keygen(context: Arc<HeContext>, secret_key: SecretKey, secret_key_array: Vec<u64>) -> KeyGenerator {
+    KeyGenerator { context, secret_key, secret_key_array: RwLock::new(secret_key_array), sk_generated: true }
+}
+pub(crate) fn keygen_sk_array_len(k: &KeyGenerator) -> usize { k.secret_key_array.read().unwrap().len() }
